@@ -58,7 +58,14 @@ static void vegas_case(std::vector<std::vector<int>> const& gx, int G, int f, in
     auto fnd = [&](hep::vegas_point<T> const& p, hep::projector<T>& pr) { pr.add(0, p.point()[0], T(1)); return fn(p); };
     auto chk = hep::make_vegas_chkpt<T, script_engine>(pdf, T(1.5), lattice(M, false));
     using C = decltype(chk);
-    auto r = f == f_ind ? hep::vegas(hep::make_integrand<T>(fnd, d, hep::make_dist_params<T>(4, T(), T(1), "x")), std::vector<std::size_t>{N}, chk, hep::callback<C>(hep::callback_mode::silent))
+    // every other constant / indicator integrand returns an `int` (a count, a flag): the value is converted to T before it meets the weight
+    static unsigned flip = 0;
+    bool const as_int = (f == f_one || f == f_ind) && (++flip % 2 == 0);
+    auto fn_int = [&](hep::vegas_point<T> const& p) -> int { return (f == f_one || p.point()[0] < edge) ? 1 : 0; };
+    auto fnd_int = [&](hep::vegas_point<T> const& p, hep::projector<T>& pr) -> int { pr.add(0, p.point()[0], T(1)); return fn_int(p); };
+    auto r = as_int ? (f == f_ind ? hep::vegas(hep::make_integrand<T>(fnd_int, d, hep::make_dist_params<T>(4, T(), T(1), "x")), std::vector<std::size_t>{N}, chk, hep::callback<C>(hep::callback_mode::silent))
+                                  : hep::vegas(hep::make_integrand<T>(fn_int, d), std::vector<std::size_t>{N}, chk, hep::callback<C>(hep::callback_mode::silent)))
+           : f == f_ind ? hep::vegas(hep::make_integrand<T>(fnd, d, hep::make_dist_params<T>(4, T(), T(1), "x")), std::vector<std::size_t>{N}, chk, hep::callback<C>(hep::callback_mode::silent))
                         : hep::vegas(hep::make_integrand<T>(fn, d), std::vector<std::size_t>{N}, chk, hep::callback<C>(hep::callback_mode::silent));
     T sum = r.results()[0].sum();
     std::vector<long long> flat;
